@@ -2,6 +2,7 @@
 import json
 
 import common
+import files_common
 
 DEP_FILES = ["BuildTagModel.v", "BuildTagProofs.v"]
 
@@ -92,6 +93,7 @@ def run(chk):
         "headers": "writeInvertedCffTag on random multi-line headers in both syntaxes; truth tables over {cff,a,b,c} vs model and vs the property's own statement",
         "input_distribution": dist,
     }
+    files_common.apply(chk)
     chk.cov["rule"] = ("cases: every constraint AST of depth<=2 over 3 tags, seeded random ASTs of depth 3..7, seeded random "
                        "headers (go:build + several +build lines + filler/unparsable lines); distinct = different input text; "
                        "non-trivial = mentions the cff tag")
